@@ -57,9 +57,12 @@ STEPOVERS = M.STEPOVER_SIGS
 
 
 def active_stepovers():
-    if os.environ.get("VERIF_C16_RAW"):
+    """A step-over is active iff the finding it steps over is an OPEN known finding (so repairing the defect and
+    marking it fixed removes the step-over).  For experiments with a patched tree: VERIF_C16_NO_STEPOVER=name,name|all."""
+    off = [x for x in os.environ.get("VERIF_C16_NO_STEPOVER", "").split(",") if x]
+    if "all" in off:
         return []
-    return sorted(name for name, sig in STEPOVERS.items() if common.classify(ID, sig)[0] == "known")
+    return sorted(name for name, sig in STEPOVERS.items() if name not in off and common.classify(ID, sig)[0] == "known")
 
 
 # ---------------------------------------------------------------------------------------------
@@ -368,16 +371,13 @@ def record(col, case, res, sampled=True):
         col.discrepancy(sig, what, case)
 
 
-def describe(case, m_labels):
-    pass
-
-
 def shard(arg):
     seed, n_examples, max_steps, kind, stepover = arg
     import hypothesis
     from hypothesis import settings, HealthCheck
     E = M.env()
     col = Collector()
+    seen = set()
     case_st = strategies(max_steps)(kind)
 
     @hypothesis.seed(seed)
@@ -386,6 +386,12 @@ def shard(arg):
               phases=[hypothesis.Phase.generate])
     @hypothesis.given(case_st)
     def prop(case):
+        h = common.jhash(case)
+        if h in seen:
+            # Hypothesis' generate phase re-draws a share of earlier values unchanged: not executed twice
+            col.discards["duplicate-of-an-earlier-case"] += 1
+            return
+        seen.add(h)
         case = dict(case)
         case["stepover"] = list(stepover)
         res = M.run_case(case, E)
@@ -415,36 +421,35 @@ def check_case(case):
     return res
 
 
+def _fails_with(case, sig):
+    f = check_case(case)["found"]
+    return f is not None and tuple(f[0]) == tuple(sig)
+
+
 def shrink_case(case, sig):
-    head = case["ops"][0]
-
-    def fails(ops):
-        c = dict(case)
-        c["ops"] = [head] + ops
-        c["orders"] = "I" * len(c["ops"]) if set(case.get("orders", "I")) <= {"I"} else case.get("orders", "")
-        f = check_case(c)["found"]
-        return f is not None and tuple(f[0]) == tuple(sig)
-
-    # orders are positional: shrink with a uniform order first if that still fails
-    base = dict(case)
+    """ddmin over the operations after the construction, preserving the signature.  The per-step query order
+    string is positional, so the case is first normalised to one uniform order (if it still fails that way)."""
+    base = None
     for uniform in ("I", "R"):
-        c = dict(case)
-        c["orders"] = uniform * len(case["ops"])
-        f = check_case(c)["found"]
-        if f is not None and tuple(f[0]) == tuple(sig):
+        c = dict(case, orders=uniform * len(case["ops"]))
+        if _fails_with(c, sig):
             base = c
             break
-    else:
+    if base is None:
         return case
-    tail = common.ddmin(base["ops"][1:], lambda ops: (lambda c: (lambda f: f is not None and tuple(f[0]) == tuple(sig))(check_case(c)["found"]))(
-        dict(base, ops=[head] + ops, orders=base["orders"][0] * (len(ops) + 1))), max_tests=200)
-    out = dict(base)
-    out["ops"] = [head] + tail
-    out["orders"] = base["orders"][0] * len(out["ops"])
-    f = check_case(out)["found"]
-    if f is not None and tuple(f[0]) == tuple(sig):
-        return out
-    return case
+    head = base["ops"][0]
+    u = base["orders"][0]
+
+    def fails(tail):
+        return _fails_with(dict(base, ops=[head] + list(tail), orders=u * (len(tail) + 1)), sig)
+
+    tail = base["ops"][1:]
+    if tail and fails([]):
+        tail = []
+    elif len(tail) >= 2:
+        tail = common.ddmin(tail, fails, max_tests=150)
+    out = dict(base, ops=[head] + list(tail), orders=u * (len(tail) + 1))
+    return out if _fails_with(out, sig) else base
 
 
 def replay(path):
@@ -477,19 +482,20 @@ def main(tier, seed, t0):
         record(col, rec["case"], res)
     # 2. generated sequences
     stepover = active_stepovers()
+    # (kind, sequences, max steps, sequences per shard): the shard layout is fixed (independent of the number of
+    # cores), gir shards are smaller because a gir step costs ~3x a table step
     if tier == "quick":
-        plan = [("table", 1100, 25), ("gir", 400, 20)]
+        plan = [("table", 1300, 25, 50), ("gir", 480, 20, 20)]
     else:
-        plan = [("table", 44000, 30), ("gir", 16000, 25)]
-    nsh = max(1, common.NCPU)
+        plan = [("table", 52000, 30, 500), ("gir", 19200, 25, 200)]
     args = []
     k = 0
-    for kind, total, steps in plan:
-        share = max(1, int(round(nsh * total / float(sum(p[1] for p in plan)))))
-        per = total // share + 1
-        for _ in range(share):
+    for kind, total, steps, per in plan:
+        for _ in range((total + per - 1) // per):
             args.append((common.shard_seed(seed, k), per, steps, kind, stepover))
             k += 1
+    # interleave so that the expensive shards do not all run last
+    args.sort(key=lambda a: (a[0] % 7, a[0]))
     col.merge(common.run_shards(shard, args))
     col.notes.append("step-overs active in generated sequences: %s" % (stepover or "none"))
     # 3. shrink new violations (sequence ddmin preserving the signature)
